@@ -91,10 +91,84 @@ def name_readers(ctx):
 
 def const_text(op):
     if op['k'] == 'const':
-        m = re.match(r'^(?:const )?"(.*)"$', op.get('text', ''))
-        if m:
-            return m.group(1)
+        for t in [op.get('text', '')] + list(op.get('promoted_texts', [])):
+            m = re.match(r'^(?:const )?"(.*)"$', t)
+            if m:
+                return m.group(1)
     return None
+
+
+
+def parser_facts(ctx, b):
+    """What the file-name parser checks, recognising the equivalent idioms:
+       prefix: starts_with(P) | strip_prefix(P) | <prefix slice> == P ; digits start: [I..] | split_at(I) | strip_prefix."""
+    fl = flow_of(b)
+    out = {'P': None, 'I': set(), 'L': None, 'prefix_edges': [], 'slices': []}
+    for bi, blk in enumerate(b.blocks):
+        if b.live[bi] and blk['term']['k'] == 'switch':
+            cb = cmp_bounds(b, bi)
+            if cb:
+                x, bounds, o = cb
+                back = fl.backward(set(fl.op_nodes(x)))
+                if any(('str>::len' in c.name) for c in b.calls if any(nn in back for nn in fl.call_result_nodes(c))) and o[2]['op'] in ('Ne', 'Eq'):
+                    out['L'] = op_const_bits(o[2]['b']) if op_const_bits(o[2]['b']) is not None else op_const_bits(o[2]['a'])
+
+    def arg_text(cs, i):
+        if i >= len(cs.args):
+            return None
+        t = const_text(cs.args[i])
+        if t is None:
+            al = cs.arg_local(i)
+            if al is not None:
+                for o in b.trace_local(al):
+                    if o[0] == 'const':
+                        t = const_text(o[2])
+                    if o[0] == 'rv' and o[2]['k'] == 'ref':
+                        pass
+        return t
+    for (bi, c, te, fe, cs) in b.switches_on_call(lambda c: 'starts_with' in c.name):
+        out['P'] = arg_text(cs, 1)
+        out['prefix_edges'].append(te)
+    for cs in b.calls:
+        if 'strip_prefix' in cs.name and cs.dest_local() is not None:
+            out['P'] = arg_text(cs, 1)
+            if out['P'] is not None:
+                out['I'].add(len(out['P']))
+            known = alias_paths(b, cs.dest_local())
+            for (bj, pl, adt, edges) in b.discr_switches():
+                if place_path(known, pl) == [()] and 'Some' in edges:
+                    out['prefix_edges'].append(edges['Some'])
+    for (bi, c, te, fe, cs) in b.switches_on_call(lambda c: re.search(r'PartialEq.*>::(eq|ne)$', c.name) is not None and 'str' in c.name):
+        for i in (0, 1):
+            t = arg_text(cs, i)
+            if t is None:
+                # &&str promoted constant: look through one more reference
+                al = cs.arg_local(i)
+                if al is not None:
+                    for o in b.trace_local(al):
+                        if o[0] == 'rv' and o[2]['k'] == 'ref' and all(e['k'] == 'deref' for e in o[2]['place']['p']):
+                            for o2 in b.trace_local(o[2]['place']['l']):
+                                if o2[0] == 'const':
+                                    t = const_text(o2[2])
+            if t is not None:
+                out['P'] = t
+                out['prefix_edges'].append(fe if cs.name.endswith('::ne') else te)
+    for bi, blk in enumerate(b.blocks):
+        if not b.live[bi]:
+            continue
+        for st in blk['stmts']:
+            if st['k'] == 'assign' and st['rv']['k'] == 'agg' and st['rv'].get('agg') == 'adt' and re.search(r'ops::Range(From|To)?$', st['rv']['adt']):
+                for nm, o in zip(st['rv'].get('fields', []), st['rv']['ops']):
+                    v = op_const_bits(o)
+                    if v is not None and nm == 'start':
+                        out['I'].add(v)
+    for cs in b.calls:
+        if re.search(r'str>::split_at(_mut)?$', cs.name) and len(cs.args) > 1 and op_const_bits(cs.args[1]) is not None:
+            out['I'].add(op_const_bits(cs.args[1]))
+            out['slices'].append(cs)
+        if re.search(r'ops::Index(Mut)?<.*> for str>::index(_mut)?$', cs.name) or re.search(r'str::traits::<impl std::ops::Index', cs.name):
+            out['slices'].append(cs)
+    return out
 
 
 @rule('FS2', ['C17', 'C01'], floor=6, template='sibling-agreement')
@@ -117,35 +191,8 @@ def fs2(ctx):
     W = ph['width']
     b = rd[0]
     fl = flow_of(b)
-    # reader constants
-    L = None
-    for bi, blk in enumerate(b.blocks):
-        if b.live[bi] and blk['term']['k'] == 'switch':
-            cb = cmp_bounds(b, bi)
-            if cb:
-                x, bounds, o = cb
-                back = fl.backward(set(fl.op_nodes(x)))
-                if any(c.name.endswith('str>::len') or c.name == 'core::str::<impl str>::len' for c in b.calls if any(nn in back for nn in fl.call_result_nodes(c))) and o[2]['op'] in ('Ne', 'Eq'):
-                    L = op_const_bits(o[2]['b']) if op_const_bits(o[2]['b']) is not None else op_const_bits(o[2]['a'])
-    Pp = None
-    for cs in b.calls:
-        if 'starts_with' in cs.name and len(cs.args) > 1:
-            Pp = const_text(cs.args[1])
-            if Pp is None:
-                al = cs.arg_local(1)
-                if al is not None:
-                    for o in b.trace_local(al):
-                        if o[0] == 'const':
-                            Pp = const_text(o[2])
-    I = set()
-    for bi, blk in enumerate(b.blocks):
-        if not b.live[bi]:
-            continue
-        for st in blk['stmts']:
-            if st['k'] == 'assign' and st['rv']['k'] == 'agg' and st['rv'].get('agg') == 'adt' and st['rv']['adt'].endswith('ops::RangeFrom'):
-                v = op_const_bits(st['rv']['ops'][0])
-                if v is not None:
-                    I.add(v)
+    pf = parser_facts(ctx, b)
+    L, Pp, I = pf['L'], pf['P'], pf['I']
     digits = any('Iterator>::all' in cs.name and any('is_ascii_digit' in strip_crate(fj.get('name', '')) for (p, fj) in b.fn_values if p == cs.point) for cs in b.calls)
     parse_ty = None
     for cs in b.calls:
@@ -237,9 +284,30 @@ def fs4(ctx):
                         back = fl.backward(set(fl.op_nodes(x)))
                         if any('str>::len' in c.name and any(nn in back for nn in fl.call_result_nodes(c)) for c in b.calls):
                             g_len = True
-    g_pre = any(b.edge_dominates(te, tgt) for (bi, c, te, fe, cs) in b.switches_on_call(lambda c: 'starts_with' in c.name))
+    pf = parser_facts(ctx, b)
+    g_pre = any(b.edge_dominates(e, tgt) for e in pf['prefix_edges'])
     g_dig = any(b.edge_dominates(te, tgt) for (bi, c, te, fe, cs) in b.switches_on_call(lambda c: 'Iterator>::all' in c.name and any('is_ascii_digit' in fj.get('name', '') for (p, fj) in b.fn_values if p == c.point)))
     # the digit test covers the same slice that is parsed
     ctx.check(g_len, 'gate:length', b.span, 'parse dominated by `len == L`', 'the parser accepts names of any length')
     ctx.check(g_pre, 'gate:prefix', b.span, 'parse dominated by starts_with(prefix)', 'the parser no longer requires the WAL prefix')
     ctx.check(g_dig, 'gate:digits', b.span, 'parse dominated by all(is_ascii_digit)', 'the parser no longer requires ASCII digits (e.g. "+123" parses as u64): foreign files could be taken for WAL files')
+
+
+@rule('FS5', ['C10', 'C17'], floor=1, template='guard-dominates-use')
+def fs5(ctx):
+    """Byte-offset slicing of a candidate file name is guarded by the prefix test (which proves the
+    offset is a char boundary): arbitrary directory entries must not make open panic."""
+    rd = name_readers(ctx)
+    if not rd:
+        ctx.missing('parser', 'name parser not found')
+        return
+    b = rd[0]
+    pf = parser_facts(ctx, b)
+    n = 0
+    for cs in pf['slices']:
+        n += 1
+        ok = any(b.edge_dominates(e, cs.point) for e in pf['prefix_edges'])
+        ctx.check(ok, 'slice#%d' % n, where(b, cs.point), 'str slicing dominated by the prefix test',
+                  'a directory entry name is sliced at a fixed byte offset before the ASCII prefix was verified: a name with a multi-byte character across that offset makes open panic')
+    if n == 0:
+        ctx.ok('no-slicing', b.span, 'the parser uses no panicking str slicing', nontrivial=False)
